@@ -5,7 +5,10 @@ EXTENDS Naturals, Sequences, FiniteSets, TLC
 
 CONSTANTS Keys,      \* naturals; stable_hash(k) = k
           MinCap,    \* 64 in the code
-          FixWrap    \* FALSE = code today: insert probing stops only at an Empty slot or at the key
+          FixWrap,   \* FALSE = code today: insert probing stops only at an Empty slot or at the key
+          ReuseTomb  \* FALSE = code today: reaching an Empty slot overwrites the remembered tombstone
+                     \* position (`MapValueState::Empty => { free_pos = Some(pos); break; }`), so
+                     \* tombstones are never reused while an Empty slot exists
 
 E == 100
 D == 101
@@ -36,7 +39,7 @@ RECURSIVE Probe(_, _, _, _, _)
 Probe(s, k, p, n, firstD) ==
   IF n = 0 THEN IF FixWrap THEN [ok |-> TRUE, pos |-> firstD, found |-> FALSE]
                            ELSE [ok |-> FALSE, pos |-> 0, found |-> FALSE]
-  ELSE IF s[p] = E THEN [ok |-> TRUE, pos |-> (IF firstD = 0 THEN p ELSE firstD), found |-> FALSE]
+  ELSE IF s[p] = E THEN [ok |-> TRUE, pos |-> (IF firstD = 0 \/ ~ReuseTomb THEN p ELSE firstD), found |-> FALSE]
   ELSE IF s[p] = k THEN [ok |-> TRUE, pos |-> p, found |-> TRUE]
   ELSE Probe(s, k, NextPos(p, Len(s)), n - 1, IF s[p] = D /\ firstD = 0 THEN p ELSE firstD)
 
